@@ -26,10 +26,7 @@ Theorem C01_get_dfs_spec :
                               p' = p \/ betterb p p' = true
     | GFail _ _ _ => forall p' e', In (p', e') (paths n) -> matchf filt p' path = None
     end.
-Proof.
-  intros filt n Hw path i. pose proof (get_at_sel filt n Hw path i) as H. unfold sel_ok, optimal in H.
-  destruct (get_at filt true n path i); exact H.
-Qed.
+Proof. exact get_dfs_spec_lemma. Qed.
 Print Assumptions C01_get_dfs_spec.
 
 (* matchf on the character-level pattern is match1 on the segment-level rule *)
@@ -76,9 +73,7 @@ Theorem C01_resolve_eq_spec : forall filt (cs : list cmd) (path : str) (cds : li
       | D405 a => R405 a
       end
   end.
-Proof.
-  intros filt cs path cds Hcs R. apply resolve_eq_spec_lemma. apply Inv_exec; [apply Inv0 | exact Hcs].
-Qed.
+Proof. exact resolve_eq_spec_script_lemma. Qed.
 Print Assumptions C01_resolve_eq_spec.
 
 (* which rules are registered: a registration the tree does not refuse is,
@@ -90,10 +85,7 @@ Theorem C01_accepted_rule_is_registered :
     let R := exec_cmds router0 cs in
     (forall e, snd (rt_add R rule pattern nm flts ms h name ow) <> Some (AKeyError e)) ->
     exists d, In (pat_of pattern flts, d) (rules_of (fst (rt_add R rule pattern nm flts ms h name ow))).
-Proof.
-  intros cs rule pattern nm flts ms h name ow Hcs Hn R. apply add_registers; [|exact Hn].
-  apply Inv_exec; [apply Inv0 | exact Hcs].
-Qed.
+Proof. exact accepted_registered_lemma. Qed.
 Print Assumptions C01_accepted_rule_is_registered.
 
 Theorem C01_rejected_rule_changes_nothing : forall R rule pattern nm flts ms h name ow e,
@@ -159,6 +151,4 @@ Example C01_nonvacuous :
   resolve filt R [s; a; s; b; s; c] G = ROk 2 [71; 69; 84]%N 3 [(x, [b])] [] /\
   resolve filt R [s; a; s; 13%N; s; c] G = ROk 2 [71; 69; 84]%N 3 [(x, [13%N])] [] /\
   (exists vs hs i, resolve filt R [s; a; s; b; s; b] G = R404 vs hs i).
-Proof.
-  cbv zeta. split; [repeat constructor|]. vm_compute. repeat split; eauto.
-Qed.
+Proof. exact c01_nonvacuous_lemma. Qed.
